@@ -43,25 +43,6 @@ K("awkward_regularize_arrayslice",
   ensures_fail=["exists(q, 0, lenflathead, not (0 - length <= old(flatheadptr[q]) and old(flatheadptr[q]) < length))"],
   serves=["C01", "C12", "C13"])
 
-K("awkward_IndexedArray_getitem_nextcarry",
-  store_asserts={"tocarry": ["0 <= value and value < lencontent"]},
-  serves=["C01", "C02", "C11", "C12", "C13"])
-
-K("awkward_IndexedArray_getitem_nextcarry_outindex",
-  store_asserts={"tocarry": ["0 <= value and value < lencontent"],
-                 "toindex": ["value == -1 or (0 <= value and value < lenindex)", "(value == -1) == (fromindex[i] < 0)"]},
-  serves=["C01", "C02", "C09", "C11", "C12", "C13"])
-
-K("awkward_IndexedArray_getitem_nextcarry_outindex_mask",
-  store_asserts={"tocarry": ["0 <= value and value < lencontent"],
-                 "toindex": ["value == -1 or (0 <= value and value < lenindex)", "(value == -1) == (fromindex[i] < 0)"]},
-  serves=["C01", "C09", "C11", "C12", "C13"])
-
-K("awkward_ByteMaskedArray_getitem_nextcarry_outindex",
-  store_asserts={"tocarry": ["0 <= value and value < length"],
-                 "outindex": ["(value == -1) == ((mask[i] != 0) != validwhen)"]},
-  serves=["C02", "C09", "C12", "C13"])
-
 K("awkward_ByteMaskedArray_toIndexedOptionArray",
   store_asserts={"toindex": ["value == ite((mask[i] != 0) == validwhen, i, -1)"]},
   serves=["C02", "C09", "C12", "C13"])
